@@ -129,6 +129,23 @@ def run_impl(module, payload, timeout=600):
     )
 
 
+def run_impl_parallel(module, cases, key="cases", workers=8, timeout=900):
+    """Split `cases` over several concurrent driver processes (results keep the
+    order of the cases)."""
+    from concurrent.futures import ThreadPoolExecutor
+    if not cases:
+        return []
+    workers = max(1, min(workers, len(cases)))
+    chunks = [cases[i::workers] for i in range(workers)]
+    with ThreadPoolExecutor(workers) as ex:
+        outs = list(ex.map(lambda ch: run_impl(module, {key: ch}, timeout=timeout)["results"], chunks))
+    res = [None] * len(cases)
+    for w, out in enumerate(outs):
+        for j, r in enumerate(out):
+            res[w + j * workers] = r
+    return res
+
+
 # --------------------------------------------------------------------------
 # Coq
 # --------------------------------------------------------------------------
